@@ -23,8 +23,8 @@ def sh(cmd, cwd, timeout=1500):
 def main():
     a = sys.argv[1:]
     opts = {}
-    while "--name" in a or "--testpkgs" in a or "--race" in a:
-        for k in ("--name", "--testpkgs"):
+    while "--name" in a or "--testpkgs" in a or "--race" in a or "--tags" in a:
+        for k in ("--name", "--testpkgs", "--tags"):
             if k in a:
                 i = a.index(k)
                 opts[k] = a[i + 1]
@@ -59,6 +59,8 @@ def main():
         for d in demos:
             shutil.copy(d, os.path.join(repo, pkgdir))
         cmd = ["go", "test", "-vet=off", "-count=1", "-run", rx]
+        if opts.get("--tags"):
+            cmd += ["-tags", opts["--tags"]]
         if opts.get("--race"):
             cmd.append("-race")
         rc, o = sh(cmd + [pk], repo)
@@ -94,7 +96,7 @@ def main():
         shutil.copy(os.path.join(out, "README.md"), dst)
     meta = {
         "property": pid, "name": name, "summary": summary, "needs_to_manifest": needs,
-        "demo": {"place_in": pkgdir, "run": "go test -vet=off -count=1 -run '%s' %s" % (rx, pk)},
+        "demo": {"place_in": pkgdir, "run": "go test -vet=off -count=1 %s-run '%s' %s" % ("-tags %s " % opts["--tags"] if opts.get("--tags") else "", rx, pk)},
         "confirmed": {
             "patched_tree_builds": True,
             "existing_tests_cmd": "go test -vet=off -count=1 " + " ".join(pkgs),
